@@ -89,8 +89,12 @@ def run_c04(ck):
     for ok, on, k, n in pairs:
         top = max(on, n)
         vals = list(range(-(1 << top) - 2, (1 << top) + 3))
-        tmpl = ("#ruledef\n{\n    emit {v: %s%d} => v\n    rel {off: %s%d} =>\n    {\n        d = off\n"
-                "        asm { emit {d} }\n    }\n}\nrel @@\n" % (k, n, ok, on))
+        if rng.random() < 0.6:
+            tmpl = ("#ruledef\n{\n    emit {v: %s%d} => v\n    rel {off: %s%d} =>\n    {\n        d = off\n"
+                    "        asm { emit {d} }\n    }\n}\nrel @@\n" % (k, n, ok, on))
+        else:
+            # the outer parameter is only handed on as TEXT (its value is never read by the outer production)
+            tmpl = ("#ruledef\n{\n    emit {v: %s%d} => v\n    rel {off: %s%d} => asm { emit {off} }\n}\nrel @@\n" % (k, n, ok, on))
         jobs.append({"mode": "asm_many", "template": tmpl, "values": [spell(v, "dec") for v in vals],
                      "want": {"events": False, "messages": False}})
         meta.append(("fwd", k, n, "%s%d" % (ok, on), vals))
